@@ -130,6 +130,18 @@ func (p *uPacketPacker) PackCoalescedPacket(onlyAck bool, maxSize protocol.ByteC
 		)
 		if initialPayload.length > 0 {
 			size += p.longHeaderPacketLength(initialHdr, initialPayload, v) + protocol.ByteCount(initialSealer.Overhead())
+			// [UQUIC] An Initial packet with frames is serialized under the spec's control
+			// (appendInitialPacket): re-framed by the FrameBuilder, padded to
+			// InitialPackets[i].PacketSize and followed by the UDPDatagramMinSize padding.
+			// None of that is in the size computed here, so a Handshake, 0-RTT or 1-RTT
+			// packet coalesced behind it was appended after the datagram padding — where the
+			// peer cannot find it — and could run past the maximum packet size and even past
+			// the packet buffer (slice bounds panic in encryptPacket). Like a datagram of a
+			// planned flight, such an Initial packet travels alone; whatever else is ready
+			// goes into the next datagram.
+			if !onlyAck && len(initialPayload.frames) > 0 {
+				size = maxSize
+			}
 		}
 	}
 
